@@ -201,6 +201,21 @@ func (e *Engine) callMods(c *ssa.CallCommon, ms *ModSet, visiting map[*ssa.Funct
 	name := e.shortName(fn)
 	if em, ok := e.externMods[name]; ok {
 		for _, h := range em {
+			if h == "$inttargets" {
+				// binary.Read(r, order, data): when data is visibly a pointer boxed at the call site, the target is that pointer's
+				var tgt ssa.Value
+				if len(c.Args) == 3 {
+					if mi, ok := c.Args[2].(*ssa.MakeInterface); ok {
+						if _, isPtr := mi.X.Type().Underlying().(*types.Pointer); isPtr {
+							tgt = mi.X
+						}
+					}
+				}
+				if tgt != nil {
+					e.storeTarget(tgt, ms)
+					continue
+				}
+			}
 			ms.heaps[h] = true
 		}
 		return
@@ -333,6 +348,20 @@ func (st *State) havocSet(ms *ModSet) {
 		st.havocAll()
 		return
 	}
+	if ms.heaps["$inttargets"] {
+		// binary.Read(r, order, p) stores through a pointer whose static type is interface{}: the target can be any
+		// location that holds fixed-size integers (a variable, a struct field, a slice element or a field of one)
+		for _, id := range sortedKeys(st.heap) {
+			if len(id) < 2 || id[1] != ':' || (id[0] != 'P' && id[0] != 'F' && id[0] != 'E') || ms.heaps[id] {
+				continue
+			}
+			so := st.e.heapSorts[id]
+			if strings.HasSuffix(so, " Int)") || strings.HasSuffix(so, " Int))") || strings.Contains(so, " S_") {
+				st.havocHeap(id)
+			}
+		}
+		st.epoch++ // heaps not mentioned yet on this path are not their initial versions either
+	}
 	var ids []string
 	for h := range ms.heaps {
 		ids = append(ids, h)
@@ -348,6 +377,25 @@ func (st *State) havocSet(ms *ModSet) {
 			continue
 		}
 		st.havocHeap(h)
+	}
+	if st.e.curElemPtrs {
+		// with pointers to slice elements modelled, a store to field f of a *S may have hit an element of a []S
+		done := map[string]bool{}
+		for h := range ms.heaps {
+			if strings.HasPrefix(h, "F:") {
+				if i := strings.LastIndex(h, "."); i > 2 {
+					eh := "E:" + h[2:i]
+					if !ms.heaps[eh] && !done[eh] {
+						done[eh] = true
+						if st.e.heapSortFromID(eh) == "" {
+							st.pendingHavoc(eh)
+						} else {
+							st.havocHeap(eh)
+						}
+					}
+				}
+			}
+		}
 	}
 	if ms.interior {
 		// stores through pointers of unknown provenance: conservatively everything of that sort
